@@ -57,6 +57,17 @@ package template
 //@     invariant seqeq(seq(b), lowerupto(s, i))
 //@     decreases len(s) - i
 
+//@ func eatTagNameRest(s []byte, j int) (m int, ok bool)
+//@   serves C01 C02 C04 C08
+//@   requires 0 <= j && j <= len(s)
+//@   ensures bad: ok == !namebad(s, j)
+//@   ensures end: ok ==> m == tnameend(s, j)
+//@   ensures endsep: ok ==> m == len(s) || tagendsep(s[m])
+//@   ensures range: j <= m && m <= len(s)
+//@   loop 1
+//@     invariant entry(j) <= j && j <= len(s) && tnameend(s, j) == tnameend(s, entry(j)) && namebad(s, j) == namebad(s, entry(j))
+//@     decreases len(s) - j
+
 //@ func tagNameChar(c byte) (r bool)
 //@   serves C01 C02 C04 C08
 //@   ensures spec: r == namechar(c)
@@ -204,7 +215,10 @@ package template
 //@   ensures wf: r.state <= stateError && r.delim <= delimSpaceOrTagEnd && 0 <= n && n <= len(s)
 //@   ensures range: 0 <= n && n <= len(s)
 //@   ensures none: forall(p, 0, len(s), !tagstart(s, p)) ==> same(r, c) && n == len(s)
-//@   ensures first: exists(p, 0, len(s), tagstart(s, p)) ==> exists(p, 0, len(s), tagstart(s, p) && forall(q, 0, p, !tagstart(s, q)) && ite(commentat(s, p), r.state == stateHTMLCmt && n == p + 4 && len(r.element.name) == 0, ite(s[p+1] == 47, ite(NAMECUT(s, p + 2), r.state == stateError && !isnil(r.err) && n == len(s), r.state == stateTag && n == tagend(s, p + 2) && len(r.element.name) == 0), ite(NAMECUT(s, p + 1), r.state == stateError && !isnil(r.err) && n == len(s), r.state == stateTag && n == tagend(s, p + 1) && seqeq(r.element.name, lower(sub(s, p + 1, n)))))))
+//@   ensures firstcmt: exists(p, 0, len(s), FIRSTTAG(s, p) && commentat(s, p)) ==> r.state == stateHTMLCmt && len(r.element.name) == 0 && exists(p, 0, len(s), FIRSTTAG(s, p) && n == p + 4)
+//@   ensures firsterr: exists(p, 0, len(s), FIRSTTAG(s, p) && !commentat(s, p) && NAMEBAD(s, NAMEAT(s, p))) ==> r.state == stateError && !isnil(r.err) && n == len(s)
+//@   ensures firstend: exists(p, 0, len(s), FIRSTTAG(s, p) && !commentat(s, p) && s[p+1] == 47 && !NAMEBAD(s, p + 2)) ==> r.state == stateTag && len(r.element.name) == 0 && exists(p, 0, len(s), FIRSTTAG(s, p) && n == tnameend(s, tagend(s, p + 2)))
+//@   ensures firsttag: exists(p, 0, len(s), FIRSTTAG(s, p) && !commentat(s, p) && s[p+1] != 47 && !NAMEBAD(s, p + 1)) ==> r.state == stateTag && exists(p, 0, len(s), FIRSTTAG(s, p) && NAMEIS(s, p + 1, n, r.element.name))
 //@   ensures nameend: r.state == stateTag && c.state != stateTag ==> n == len(s) || tagendsep(s[n])
 //@   ensures fresh: exists(p, 0, len(s), tagstart(s, p)) && r.state != stateError ==> r.delim == delimNone && len(r.attr.name) == 0 && len(r.attr.value) == 0 && isnil(r.err) && len(r.linkRel) == 0 && len(r.scriptType) == 0 && len(r.element.names) == 0
 //@   loop 1
